@@ -9,7 +9,8 @@
    and by the msg correspondence (produce, then consume in the three forms, compared field by field with the model). *)
 From Coq Require Import String.
 From Coq Require Import NArith ZArith List Bool.
-From Cose Require Import Lib.Base Lib.Cbor Lib.CborProofs Model.GoVal Model.Wire Model.MsgLogic Model.Nonce Model.Msg Model.MsgProofs Model.MsgRoundTrip Spec.RFC9052.
+From Cose Require Import Lib.Base Lib.Cbor Lib.CborProofs Model.GoVal Model.CborGo Model.Wire Model.Key Model.MsgLogic Model.Nonce Model.Msg Model.MsgProofs Model.MsgRoundTrip Spec.RFC9052
+     Model.ValueRoundTrip Model.MsgRoundTripFull Model.MsgRoundTripSign.
 Import ListNotations.
 
 Theorem C01_sign1_roundtrip : forall p prot unprot pl ext out pm um,
@@ -48,6 +49,53 @@ Theorem C01_encrypt0_roundtrip : forall p prot unprot payload ext draw out pm um
   enc0_consume false p out ext = Ok {| v_prot := pm; v_unprot := Some um; v_payload := payload_view (match payload with Some b => b | None => [] end) |}.
 Proof. exact enc0_roundtrip. Qed.
 Print Assumptions C01_encrypt0_roundtrip.
+
+(* with the header codec discharged: for header maps as applications write them (good_map: int / text labels, no label
+   twice, null / bool / integer / bstr / tstr / array / nested-map values, within the decoder limits) the message is
+   accepted back with the protected and unprotected headers in the decoder's normal form (read_back: the same labels,
+   integers as uint64 / int64, maps in deterministic order), on which every accessor reads what it read before *)
+Theorem C01_sign1_roundtrip_full : forall p prot unprot pl ext out prot',
+  sign1_produce p prot unprot (Some pl) ext = Ok out ->
+  (forall tbs sig, sg_sign p tbs = Ok sig -> sg_verify p tbs sig = true) ->
+  prepare_protected prot (sg_key p) = Ok prot' -> alg_gate prot' (key_alg (sg_key p)) = true ->
+  good_map prot' -> good_map (prepare_unprotected unprot (sg_key p)) ->
+  (forall pb sig itU, headers_bytes prot' = Some pb -> item_of (VMap (prepare_unprotected unprot (sg_key p))) = Some itU ->
+      encodable (IArr [ob (Some pb); itU; ob (Some pl); ob (Some sig)]) = true) ->
+  sign1_consume false p out ext
+  = Ok {| v_prot := read_back prot'; v_unprot := Some (read_back (prepare_unprotected unprot (sg_key p))); v_payload := payload_view pl |}.
+Proof. exact sign1_roundtrip_full. Qed.
+Print Assumptions C01_sign1_roundtrip_full.
+
+Theorem C01_mac0_roundtrip_full : forall p prot unprot pl ext out prot',
+  mac0_produce p prot unprot (Some pl) ext = Ok out ->
+  (forall tbm tag, mc_create p tbm = Ok tag -> mc_verify p tbm tag = true) ->
+  prepare_protected prot (mc_key p) = Ok prot' -> alg_gate prot' (key_alg (mc_key p)) = true ->
+  good_map prot' -> good_map (prepare_unprotected unprot (mc_key p)) ->
+  (forall pb tag itU, headers_bytes prot' = Some pb -> item_of (VMap (prepare_unprotected unprot (mc_key p))) = Some itU ->
+      encodable (IArr [ob (Some pb); itU; ob (Some pl); ob (Some tag)]) = true) ->
+  mac0_consume false p out ext
+  = Ok {| v_prot := read_back prot'; v_unprot := Some (read_back (prepare_unprotected unprot (mc_key p))); v_payload := payload_view pl |}.
+Proof. exact mac0_roundtrip_full. Qed.
+Print Assumptions C01_mac0_roundtrip_full.
+
+Theorem C01_read_back_accessors : forall m l, NoDup (map fst m) -> forallb (fun e => ints_in_kind (snd e)) m = true ->
+  get_int (read_back m) l = get_int m l /\ get_bytes (read_back m) l = get_bytes m l
+  /\ get_string (read_back m) l = get_string m l /\ get_bool (read_back m) l = get_bool m l /\ has (read_back m) l = has m l.
+Proof. exact read_back_accessors. Qed.
+Print Assumptions C01_read_back_accessors.
+
+(* COSE_Sign with any number of signers: a message in the form the library writes, each of whose signatures finds its
+   verifier by key id, passes the algorithm gate and verifies over the RFC structure, is accepted with all its signatures *)
+Theorem C01_sign_any_number_of_signers : forall vs pb itU pl ext um pm (tr : list (sigdata * (cosemap * cosemap))),
+  let ds := map fst tr in
+  encodable (sign_whole pb itU pl ds) = true ->
+  fld_headers (encode itU) = Ok um -> headers_from_bytes (Some pb) = Ok pm ->
+  vs <> [] -> tr <> [] ->
+  Forall (fun t => sig_good vs pb pl ext (fst t) (fst (snd t)) (snd (snd t))) tr ->
+  sign_consume false vs (sign_wire pb itU pl ds) ext
+  = Ok ({| v_prot := pm; v_unprot := Some um; v_payload := payload_view pl |}, map (fun t => sigent_of (fst t) (fst (snd t)) (snd (snd t))) tr).
+Proof. exact sign_accepts_wire_form. Qed.
+Print Assumptions C01_sign_any_number_of_signers.
 
 (* tagged, untagged or wrapped in the CWT tag: the same wire struct reaches Verify / Decrypt, for all six kinds *)
 Theorem C01_all_forms_alike : forall k fs, shaped k fs ->
